@@ -702,5 +702,24 @@ def renamed(e, m):
     return Rename(m).visit(copy.deepcopy(e))
 
 
+KNOWN_SIGNATURES = {}      # simple name of a repository function / class (unique) -> parameter names ; filled by normalize.keywordise_calls
+
+
+def keywordise_expr(e):
+    """the rule's own expression templates in the engine's canonical call spelling: f(a, b) -> f(x=a, y=b) for repository callables known by
+    their (unique) simple name, and self.m(..) left alone (templates name free functions)"""
+    class K(ast.NodeTransformer):
+        def visit_Call(self, c):
+            self.generic_visit(c)
+            if isinstance(c.func, ast.Name) and c.func.id in KNOWN_SIGNATURES and c.args and not any(isinstance(a, ast.Starred) for a in c.args) \
+                    and len(c.args) <= len(KNOWN_SIGNATURES[c.func.id]) and not any(k.arg is None for k in c.keywords):
+                names = KNOWN_SIGNATURES[c.func.id][:len(c.args)]
+                if not set(names) & {k.arg for k in c.keywords}:
+                    c.keywords = [ast.keyword(arg=nm, value=a) for nm, a in zip(names, c.args)] + c.keywords
+                    c.args = []
+            return c
+    return ast.fix_missing_locations(K().visit(e))
+
+
 def parse_expr(src):
     return ast.parse(src, mode="eval").body
